@@ -15,15 +15,12 @@ import (
 )
 
 type harness struct {
-	f   lib.Flags
-	res *lib.Result
-	r   *lib.RNG
-	drv *lib.Driver
-	bt  *btModel
-	// which variant of the code is under test (decided by the probes)
-	l9, unkLast, btOver, btSkip bool
-	probeHists                  []runnerHistory
-	writeFailHangs              int
+	f              lib.Flags
+	res            *lib.Result
+	r              *lib.RNG
+	drv            *lib.Driver
+	bt             *btModel
+	writeFailHangs int
 }
 
 func repeatInt(v, n int) []int {
